@@ -27,7 +27,7 @@ ASSUMPTIONS = [
     "NEMA unbalance: magnitudes enter through fresh variables m >= 0, m^2 = re^2 + im^2 (nonlinear real arithmetic); periods where all three phase currents vanish are excluded (0/0)",
     "datetimes_array: datetime / timedelta / np.datetime64 modelled by the calendar model of C17 (naive instants, whole minutes)",
 ]
-EXPECT_GLOBAL_TAGS = ("agg", "cc:subset", "cc:reordered", "energy", "nema", "datetimes")
+EXPECT_GLOBAL_TAGS = ("agg", "cc:subset", "cc:reordered", "cc:after_update", "energy", "nema", "datetimes")
 BAND = 1e-9 * 5000
 
 
@@ -114,13 +114,23 @@ def h_aggregate(cx, angles, voltages, T):
     cx.observe("ap", ap)
 
 
-def h_constraint_currents(cx, angles, voltages, rows, T, names, request, flag):
+def h_constraint_currents(cx, angles, voltages, rows, T, names, request, flag, update=None):
     env.install(cx)
     import acnportal.acnsim.analysis as AN
 
     sim, net, ids, coeffs, R = build(cx, angles, voltages, rows, T, names)
     req = None if request is None else [names[k] for k in request]
     out = AN.constraint_currents(sim, return_magnitudes=flag, constraint_ids=req)
+    if update is not None:
+        # history: the query above, then one constraint is updated through the public update_constraint() (which re-appends
+        # it, so every later row moves up), then the SAME simulator is analysed again - judged on the second answer
+        A = acn()
+        c_new = {ids[j]: cx.real("u_%d" % j, lo=-2, hi=2) for j in range(len(ids)) if j != update % len(ids)}
+        net.update_constraint(names[update], A.Current(c_new), 55)
+        coeffs = list(coeffs)
+        coeffs[update] = c_new
+        cx.tag("cc:after_update")
+        out = AN.constraint_currents(sim, return_magnitudes=flag, constraint_ids=req)
     want = list(names) if req is None else list(req)
     cx.check("keys_are_the_requested_constraints", sorted(out.keys()) == sorted(set(want)), note="%s vs %s" % (sorted(out.keys()), sorted(want)))
     if req is not None:
@@ -318,6 +328,10 @@ def jobs(tier):
             js.append(Job("constraint_currents[req=%s,flag=%s]" % (request, flag), h_constraint_currents,
                           dict(angles=THREE["angles"], voltages=THREE["voltages"], rows=ROWS3, T=T, names=NAMES3, request=request, flag=flag), functions=FUNCS,
                           bounds=dict(stations=3, constraints=3, periods=T, coefficients="symbolic in [-2,2], one absent station per row", requested=request, return_magnitudes=flag)))
+    for request, upd in [((1,), 0), ((0, 2), 1), ((2, 1), 1), (None, 0)] + ([((0, 1, 2), 1), ((2,), 0), ((1,), 2), ((1, 2, 0), 0), ((2, 0), 0)] if deep else []):
+        js.append(Job("constraint_currents[req=%s,flag=False,update=%d]" % (request, upd), h_constraint_currents,
+                      dict(angles=THREE["angles"], voltages=THREE["voltages"], rows=ROWS3, T=2, names=NAMES3, request=request, flag=False, update=upd), functions=FUNCS + ["acnportal.acnsim.network.charging_network.ChargingNetwork.update_constraint"],
+                      bounds=dict(stations=3, constraints=3, periods=2, requested=request, history="query, update_constraint(#%d), query again" % upd)))
     if not q:
         js.append(Job("constraint_currents[single-phase,req=(1,0)]", h_constraint_currents, dict(angles=(0, 0, 0), voltages=(208, 208, 208), rows=ROWS3, T=2, names=NAMES3, request=(1, 0), flag=False),
                       functions=FUNCS, bounds=dict(stations=3, constraints=3, periods=2)))
@@ -332,7 +346,8 @@ def jobs(tier):
         js.append(Job("nema[ang=%s,rows=%s,T=%d,order=%s]" % (ang, "delta" if rows is NEMA_ROWS_DELTA else "wye", T, order), h_nema,
                       dict(angles=ang, voltages=(208, 208, 208), rows=rows, T=T, names=NAMES3, order=order), functions=FUNCS, timeout=1200,
                       bounds=dict(stations=3, periods=T, phase_order=order, angles=ang), cost=30))
-    for T, period, pending in ([(3, 5, False), (2, 720, True)] if q else [(T, p, pe) for T in (1, 3, 4) for p in (1, 5, 60, 1440) for pe in (False, True)]):
-        js.append(Job("datetimes[T=%d,period=%d,pending=%d]" % (T, period, pending), h_datetimes, dict(T=T, period=period, pending=pending), functions=FUNCS,
+    # the period is documented as a float number of minutes: whole and fractional values
+    for T, period, pending in ([(3, 5, False), (2, 720, True)] if q else [(T, p, pe) for T in (1, 3, 4) for p in (1, 5, 60, 1440, 2.5, 0.5) for pe in (False, True)]):
+        js.append(Job("datetimes[T=%d,period=%s,pending=%d]" % (T, period, pending), h_datetimes, dict(T=T, period=period, pending=pending), functions=FUNCS,
                       bounds=dict(periods=T, period=period, start="29-31 December of any year type whose 1 January is a Wednesday, any second of the day")))
     return js
